@@ -7,8 +7,9 @@
    order incl. stale ones of earlier calls, pulls, closes, timeouts).  Task i of the input has value
    `run i`, so an output stream is a list of indices; `delivered` is what the consumer received.
    This file contains only the property theorems; proofs are in Proofs/Parallel*.v. *)
-From Coq Require Import List Arith.
+From Coq Require Import List Arith ZArith.
 Require Import JV.Model.ParallelCore JV.Proofs.ParallelInv1 JV.Proofs.ParallelInv4 JV.Proofs.ParallelMisc.
+Require Import JV.Model.AutoBatch JV.Proofs.AutoBatch.
 Import ListNotations.
 
 (* every task taken from the input is in exactly one submitted batch or one look-ahead batch, in input
@@ -39,6 +40,13 @@ Proof. exact ordered_output_complete. Qed.
 Theorem C01_sequential : forall tfail tasks, (forall i, In i tasks -> tfail i = false) ->
   seq_run tfail tasks = (tasks, None).
 Proof. exact seq_run_ok. Qed.
+
+(* batch_size='auto': whatever the measured durations (and whatever the floating-point expression
+   int(old * MIN_IDEAL_BATCH_DURATION / duration) evaluates to), every batch size handed to
+   dispatch_one_batch is >= 1 -- the hypothesis on batch sizes under which `reach` is defined *)
+Theorem C01_auto_batch_size_positive : forall steps old, (1 <= old)%Z ->
+  Forall (fun b => (1 <= b)%Z) (run_sizes old steps).
+Proof. exact run_sizes_pos. Qed.
 
 (* known finding F6: pre_dispatch evaluating to 0 (excluded from `reach` by wf_ev) drops every task *)
 Theorem C01_predispatch_zero_refuted :
